@@ -13,6 +13,7 @@ structure SporkSt where
   bridge : Option Nat := none
   htlc : Option Nat := none
   hist : List (Nat × SState) := []           -- spork contract state as of each momentum height
+  window : Nat × Nat := mainnetWindow        -- the community key's window in force in the real process (S-window)
 
 def internId (s : SporkSt) (x : String) : SporkSt × Nat :=
   match s.ids.findIdx? (· == x) with
@@ -44,6 +45,10 @@ def sortStrs (l : List String) : List String := l.foldr insertStr []
 
 def sporkStep (s : SporkSt) : List String → Option (SporkSt × String)
   | ["S-reset"] => some ({}, "ok")
+  | ["S-window", a, b] => do
+    let a ← a.toNat?
+    let b ← b.toNat?
+    pure ({ s with window := (a, b) }, "ok")
   | ["S-bind", tag, id] =>
     let (s, i) := internId s id
     if tag = "acc" then some ({ s with acc := some i }, "ok")
@@ -54,14 +59,14 @@ def sporkStep (s : SporkSt) : List String → Option (SporkSt × String)
     let snd ← parseSender snd
     let fh ← fh.toNat?
     let (s, i) := internId s id
-    match create s.st snd fh i with
+    match createW s.window s.st snd fh i with
     | some st' => pure ({ s with st := st' }, "ok")
     | none => pure (s, "fail")
   | ["S-activate", snd, fh, id] => do
     let snd ← parseSender snd
     let fh ← fh.toNat?
     let (s, i) := internId s id
-    match activate s.st snd fh i with
+    match activateW s.window s.st snd fh i with
     | some st' => pure ({ s with st := st' }, "ok")
     | none => pure (s, "fail")
   | ["S-active", h, id] => do
